@@ -54,9 +54,23 @@ def _items(case_items):
     return [it if isinstance(it, int) else bytes.fromhex(it) for it in case_items]
 
 
-def _run_lib(items, message, env):
+def _nested(items, nest):
+    """The command list with items[a:b] wrapped into a sub-list - the shape Script.parse gives a pushed redeem script
+    and Script() accepts from callers; evaluation is defined on the flattened list."""
+    if not nest:
+        return list(items)
+    a = nest[0] % (len(items) + 1)
+    b = min(len(items), a + nest[1])
+    if b <= a:
+        return list(items)
+    return list(items[:a]) + [list(items[a:b])] + list(items[b:])
+
+
+def _run_lib(items, message, env, nest=None):
     """-> (verdict: True/False/'raise', exception, final_stack or None)"""
     Script = _lib()
+    flat = items
+    items = _nested(items, nest)
     try:
         s = Script(list(items))
         v = s.evaluate(message=message, env_data=dict(env) if env is not None else None)
@@ -132,7 +146,7 @@ def check_program(ctx, case):
         checker = _EnvChecker(message, e)
     ref_ok, ref_stack, ref_why = interp.eval_items(items, checker)
     ref_exec_ok = ref_ok or ref_why in ('empty stack', 'false on top')
-    verdict, exc, lib_stack = _run_lib(items, message, env)
+    verdict, exc, lib_stack = _run_lib(items, message, env, case.get('nest'))
     ops = [interp.NAMES.get(i, '%#x' % i) for i in items if isinstance(i, int)]
     finding_ops = sorted(set(OP_FINDINGS[o] for o in ops if o in OP_FINDINGS))
     kf = finding_ops[0] if len(finding_ops) == 1 else None
@@ -258,13 +272,20 @@ def opbyte_cases():
             out.append((op, 'top', stack + [op]))
             out.append((op, 'taken', stack + [0x51, 0x63, op, 0x68]))
             out.append((op, 'untaken', stack + [0x00, 0x63, op, 0x68, 0x51]))
+            if len(stack) < 2:
+                # the same inside a nested command list (pushed redeem script)
+                out.append((op, 'untaken_nested', stack + [0x00, 0x63, op, 0x68, 0x51], (len(stack), 4)))
+                out.append((op, 'taken_nested', stack + [0x51, 0x63, op, 0x68], (len(stack) + 1, 2)))
     return out
 
 
 def run_opbytes(ctx):
     cases = opbyte_cases()
-    for op, where, items in cases[ctx.shard::ctx.nshards]:
+    for entry in cases[ctx.shard::ctx.nshards]:
+        op, where, items = entry[:3]
         case = {'kind': 'program', 'tag': 'opbyte.%s' % where, 'items': items}
+        if len(entry) > 3:
+            case['nest'] = list(entry[3])
         ctx.nt(('opbyte', op, where, tuple(items)))
         ctx.klass('opbyte.' + where)
         ctx.guard(lambda c: check_program(ctx, c), case)
@@ -302,8 +323,9 @@ def program_strategy(ctx):
             lambda t: [t[0], t[1]] + t[2] + ([0x67] + t[4] if t[3] else []) + [0x68])
         return st.lists(st.one_of(atom, atom, atom, cond), min_size=0, max_size=6).map(
             lambda parts: [x for p in parts for x in (p if isinstance(p, list) else [p])])
-    return block(3).map(lambda items: items[:max_len]).filter(lambda items: len(items) > 0).map(
-        lambda items: {'kind': 'program', 'tag': 'program', 'items': items})
+    nest = st.one_of(st.none(), st.none(), st.tuples(st.integers(0, 40), st.integers(1, 12)).map(list))
+    return st.tuples(block(3).map(lambda items: items[:max_len]).filter(lambda items: len(items) > 0), nest).map(
+        lambda t: dict({'kind': 'program', 'tag': 'program', 'items': t[0]}, **({'nest': t[1]} if t[1] else {})))
 
 
 def _balanced(items):
